@@ -16,6 +16,8 @@ import (
 	"net"
 	"os"
 	"reflect"
+	"runtime"
+	"strconv"
 	"strings"
 	"sync"
 	"sync/atomic"
@@ -39,6 +41,59 @@ type tconn struct {
 	*netx.Scripted
 	timeoutAtEnd bool
 	rec          *connRec
+	park         *parkSlot // per-IP Serve cases: park the worker that closes this conn at wp.afterClose
+}
+
+// parkSlot forces the window between the worker's c.Close() and its StateClosed report: the goroutine that
+// closes the connection is parked at the wp.afterClose hook point until the acceptor has accepted (and
+// wrapped) the next connection from the same IP and reported StateNew for it - or until a bound expires.
+type parkSlot struct {
+	release chan struct{}
+	once    sync.Once
+}
+
+func (p *parkSlot) open() { p.once.Do(func() { close(p.release) }) }
+
+var (
+	parkMu   sync.Mutex
+	parkedBy = map[uint64]*parkSlot{} // goroutine id (the one that called tconn.Close) -> slot
+	parkRun  *mon.Run
+)
+
+const parkBound = 3 * time.Second
+
+func goid() uint64 {
+	var buf [64]byte
+	b := buf[:runtime.Stack(buf[:], false)]
+	b = b[len("goroutine "):]
+	j := 0
+	for j < len(b) && b[j] >= '0' && b[j] <= '9' {
+		j++
+	}
+	id, _ := strconv.ParseUint(string(b[:j]), 10, 64)
+	return id
+}
+
+// pointHook is the process-wide verifPoint hook of this check (cases run concurrently, the hook carries
+// no identity: the goroutine id registered by tconn.Close provides the attribution).
+func pointHook(name string) {
+	if name != "wp.afterClose" {
+		return
+	}
+	id := goid()
+	parkMu.Lock()
+	slot := parkedBy[id]
+	delete(parkedBy, id)
+	parkMu.Unlock()
+	if slot == nil {
+		return
+	}
+	select {
+	case <-slot.release:
+		parkRun.Event("perip_afterclose_window_forced", 1)
+	case <-time.After(parkBound):
+		parkRun.Event("perip_afterclose_park_bound_expired", 1)
+	}
 }
 
 func (c *tconn) Read(p []byte) (int, error) {
@@ -53,7 +108,14 @@ func (c *tconn) Read(p []byte) (int, error) {
 
 func (c *tconn) Close() error {
 	err := c.Scripted.Close()
-	c.rec.closeOnce.Do(func() { close(c.rec.closedCh) })
+	c.rec.closeOnce.Do(func() {
+		if c.park != nil {
+			parkMu.Lock()
+			parkedBy[goid()] = c.park
+			parkMu.Unlock()
+		}
+		close(c.rec.closedCh)
+	})
 	return err
 }
 
@@ -481,12 +543,30 @@ func runCase(r *mon.Run, i int) {
 		rec.rejected = cfg.Reject && k == 1
 		if perIP {
 			ip := net.IPv4(10, 0, 0, byte(1+rnd.Intn(2)))
+			if k == 1 && cfg.Mode == "Serve" {
+				ip = recs[0].conn.Remote.(*net.TCPAddr).IP // the forced window needs the next connection from the same IP
+			}
 			rec.conn.Remote = &net.TCPAddr{IP: ip, Port: 40000 + k}
 			cfg.RemoteIPs = append(cfg.RemoteIPs, ip.String())
 		}
 		recs = append(recs, rec)
 	}
 
+	var slot *parkSlot
+	if perIP && cfg.Mode == "Serve" && nconn >= 2 {
+		slot = &parkSlot{release: make(chan struct{})}
+		recs[0].conn.park = slot
+		defer func() {
+			slot.open()
+			parkMu.Lock()
+			for id, sl := range parkedBy {
+				if sl == slot {
+					delete(parkedBy, id) // registered by a goroutine that is not the worker (hijack handler)
+				}
+			}
+			parkMu.Unlock()
+		}()
+	}
 	gate := make(chan struct{})
 	var hookForeign atomic.Int32
 	s := &fasthttp.Server{
@@ -544,7 +624,7 @@ func runCase(r *mon.Run, i int) {
 	var vmu sync.Mutex
 	vals := map[net.Conn][]fasthttp.ConnState{}
 	var valOrder []net.Conn
-	terminals := 0
+	terminals, newsSeen := 0, 0
 	termSig := make(chan struct{}, 16)
 	s.ConnState = func(nc net.Conn, st fasthttp.ConnState) {
 		if perIP {
@@ -553,6 +633,12 @@ func runCase(r *mon.Run, i int) {
 				valOrder = append(valOrder, nc)
 			}
 			vals[nc] = append(vals[nc], st)
+			if st == fasthttp.StateNew {
+				newsSeen++
+				if newsSeen >= 2 && slot != nil {
+					slot.open() // the next connection is accepted, wrapped and reported: let the parked worker go on
+				}
+			}
 			if st == fasthttp.StateClosed || st == fasthttp.StateHijacked {
 				terminals++
 			}
@@ -669,9 +755,17 @@ func runCase(r *mon.Run, i int) {
 				}
 			}
 		} else {
-			for _, rec := range recs {
+			for k, rec := range recs {
 				if !push(rec) {
 					break
+				}
+				if k == 0 && slot != nil {
+					// the next connection is offered only once the first one has been closed by the server:
+					// its worker is then parked between Close and the StateClosed report
+					if !wait(rec.closedCh) {
+						incon = "first connection not closed"
+						break
+					}
 				}
 			}
 		}
@@ -840,6 +934,10 @@ func TestC14(t *testing.T) {
 	r.Assume("a read timeout is modelled by a conn whose Read returns a net.OpError wrapping os.ErrDeadlineExceeded once the script is exhausted (the scripted conn ignores deadlines)")
 	r.Assume("which terminal state (closed vs hijacked) is reported is not judged, only that there is exactly one and nothing follows it until the case ends (hijack handler finished, Serve returned)")
 	r.Assume("in Serve mode the terminal hook call of a connection the server has already closed is awaited for 10 s (it directly follows Close in the worker) before the connection is judged no-terminal-state")
+	r.Assume("in per-IP Serve cases the worker that closed the first connection is parked at the wp.afterClose hook point (attributed by goroutine id) until StateNew of the next connection from the same IP was reported, at most 3 s; this only forces a schedule, the verdict comes from the per-value lifecycle monitor")
+	parkRun = r
+	fasthttp.VerifSetPointHook(pointHook)
+	defer fasthttp.VerifSetPointHook(nil)
 	n := r.N(20_000, 2_000_000)
 	mon.Parallel(n, 0, func(i int) {
 		if !r.Want(i) {
@@ -860,5 +958,6 @@ func TestC14(t *testing.T) {
 		r.Require("cases_rmu_with_streamrequestbody", n/20)
 		r.Require("perip_values_judged", n/10)
 		r.Require("perip_values_reused_by_pool", 1)
+		r.Require("perip_afterclose_window_forced", n/100)
 	}
 }
